@@ -28,6 +28,8 @@ BinC(o) == [text |-> "m " \o o \o " n", type |-> "vector"]
 Others == << [text |-> "m " \o "+ on (a) n", type |-> "vector"], [text |-> "m + ignoring (b) group_left n", type |-> "vector"],
              [text |-> "m > bool n", type |-> "vector"], [text |-> "m and on (a) n", type |-> "vector"],
              [text |-> "m[4s:2s]", type |-> "matrix"], [text |-> "max_over_time(m[4s:2s])", type |-> "vector"],
+             \* a subquery without a step (the engine's default evaluation interval)
+             [text |-> "m[4s:]", type |-> "matrix"], [text |-> "sum_over_time(m[6s:] offset 1s)", type |-> "vector"],
              [text |-> "sum_over_time(rate(m[2s])[4s:1s])", type |-> "vector"],
              [text |-> "\"str\"", type |-> "string"], [text |-> "m[2s]", type |-> "matrix"], [text |-> "m", type |-> "vector"],
              [text |-> "m @ 2", type |-> "vector"], [text |-> "m offset 1s", type |-> "vector"], [text |-> "m[2s] offset 1s", type |-> "matrix"],
